@@ -1,6 +1,7 @@
 package main
 
 import (
+	"fmt"
 	"math/big"
 	"strings"
 
@@ -176,3 +177,30 @@ func init() {
 
 var _ = strings.Split
 var _ = crypto.ScalarBaseMult
+
+// maskDeficit: the responses of the sigma protocols are witness·challenge plus a mask drawn below a public bound; a
+// response more than 64 bits shorter than that bound (probability 2^-64 for an honest prover) means the mask does not
+// cover the witness. Returns a description of the first such response, or "".
+func maskDeficit(sys string, pf []*big.Int, qBits int) string {
+	const nt = 2048 // bit length of every ring-Pedersen / Paillier modulus in use
+	type want struct {
+		idx, bits int
+		name      string
+	}
+	var ws []want
+	switch sys {
+	case "range":
+		ws = []want{{4, 3 * qBits, "s1 (mask alpha < q^3)"}, {5, 3*qBits + nt, "s2 (mask gamma < q^3·Ñ)"}}
+	case "bob", "bobwc":
+		ws = []want{{6, 3 * qBits, "s1 (mask alpha < q^3)"}, {7, 3*qBits + nt, "s2 (mask rho' < q^3·Ñ)"}, {8, 7 * qBits, "t1 (mask gamma < q^7)"}, {9, 3*qBits + nt, "t2 (mask tau < q^3·Ñ)"}}
+	case "fac":
+		ws = []want{{6, 3*qBits + nt/2, "z1 (mask alpha < q^3·sqrt(N0))"}, {7, 3*qBits + nt/2, "z2 (mask beta < q^3·sqrt(N0))"},
+			{8, 3*qBits + nt, "w1 (mask x < q^3·N̂)"}, {9, 3*qBits + nt, "w2 (mask y < q^3·N̂)"}, {10, 3*qBits + 2*nt, "v (mask r < q^3·N̂·N0)"}}
+	}
+	for _, w := range ws {
+		if w.idx < len(pf) && pf[w.idx].BitLen() < w.bits-72 {
+			return fmt.Sprintf("%s has %d bits, its mask has about %d", w.name, pf[w.idx].BitLen(), w.bits)
+		}
+	}
+	return ""
+}
